@@ -106,7 +106,10 @@ Definition dispatch_hooks (toks : list (list N)) : option (list N * list N) :=
         let rs := parse_hex_list recs in
         let mapped := is "mmap" writer || (is "auto" writer && flag norm) in
         let w := if mapped then (List.length rs + (if flag hdr then 1 else 0))%nat else 0%nat in
-        Some (show_hooks w (2 * windows (parse_nat k) rs), show_hooks w (2 * windows_spec (parse_nat k) rs))
+        Some (show_hooks w (2 * windows (parse_nat k) rs) ++ str "|layout=" ++
+                (if mapped then m_layout (parse_nat k) (flag hdr) (parse_hex delim) rs else []),
+              show_hooks w (2 * windows_spec (parse_nat k) rs) ++ str "|layout=" ++
+                (if mapped then s_layout (parse_nat k) (flag hdr) (parse_hex delim) rs else []))
       else if is "hooks" h && is "cov" op then
         (* hooks cov k bs bc norm delim threads flush container recs altrecs (positions as in dispatch_file) *)
         let rs := parse_hex_list wrap in let ars := parse_hex_list recs in
